@@ -40,6 +40,8 @@ CHECKS = {
          "Decisive stub: mmap raises ValueError when the requested length exceeds the file size (documented CPython/Linux behaviour); structures as C10.", "symbolic execution with a symbolic crash point + z3 (QF_BV)", "5 C12"),
  "C14": ("Symbolic execution of ccube.walk/_walk/interactions over symbolic-length row-id arrays, N symbolic; delivered (coordinates, row ids) are compared with rows(c) written over the element terms, and every undelivered combination must be matched by no row.",
          "Intersection kernel = summary discharged by C08; D<=3 (quick) / 4 (thorough), E=3, caps 1-2.", T + "; kernel summaries", "5 C14"),
+ "C18": ("Symbolic execution of xfunc_stddev / xfunc_quantile (incl. weighted_quantile) / xfunc_max / xfunc_min / xfunc_covariance / xfunc_corrcoef through xcube.calculate: categories and validity bits are forked (structure), fact values, weights and the probability in [0,1] are solver variables. Standard deviation, quantile and min/max are compared with per-cell textbook formulas written in SMT (sqrt(x) = y with y>=0, y^2=x); covariance / correlation with NumPy's statistic (textbook model) applied to the rows the property says must be selected, decided structurally term by term; missing cells by the C04 rule plus 'fewer than two valid rows' for the standard deviation.",
+         "numpy.quantile/cov/corrcoef/amax/amin numerics are NumPy's (modelled by definition); weighted standard deviation / covariance use three concrete weight patterns per configuration; weighted quantile: missing rule and [min,max] range only; N<=3, D<=1 (quick).", T + "; tagged exact-rational float model, sqrt as a defined fresh variable", "5 C18"),
  "C19": ("All paths of the real fit_dtype source over unbounded integer variables; each VC (contains the range, right signedness, no narrower dtype fits) is linear integer arithmetic over the whole documented domain.",
          "numpy.iinfo limits are taken from NumPy; the property's domain is the assumption set.", "symbolic execution of the Python source + z3 (LIA), no bound beyond the documented domain", "5 C19"),
 }
